@@ -27,6 +27,15 @@ type updownLine struct {
 	ambCount   int   // total number of sites that are not ATGC
 }
 
+// csvField quotes a field that contains a comma, a double quote or a line break, as encoding/csv (which
+// reads the file back in updown topranking) expects, so that any sequence ID survives the round trip
+func csvField(s string) string {
+	if strings.ContainsAny(s, ",\"\r\n") {
+		return "\"" + strings.ReplaceAll(s, "\"", "\"\"") + "\""
+	}
+	return s
+}
+
 // writeOutput writes the output to stdout or a file as it arrives.
 // It uses a map to write things in the same order as they are in the input file.
 func writeOutput(w io.Writer, cudLs chan updownLine, cErr chan error, cWriteDone chan bool) {
@@ -59,7 +68,7 @@ func writeOutput(w io.Writer, cudLs chan updownLine, cErr chan error, cWriteDone
 						ambstrings = append(ambstrings, strconv.Itoa(udLine.ambs[i])+"-"+strconv.Itoa(udLine.ambs[i+1]))
 					}
 				}
-				_, err := w.Write([]byte(udLine.id + "," + strings.Join(udLine.snps, "|") + "," + strings.Join(ambstrings, "|") + "," + strconv.Itoa(udLine.snpCount) + "," + strconv.Itoa(udLine.ambCount) + "\n"))
+				_, err := w.Write([]byte(csvField(udLine.id) + "," + strings.Join(udLine.snps, "|") + "," + strings.Join(ambstrings, "|") + "," + strconv.Itoa(udLine.snpCount) + "," + strconv.Itoa(udLine.ambCount) + "\n"))
 				if err != nil {
 					cErr <- err
 					return
